@@ -74,6 +74,9 @@ def check(ctx: Ctx) -> str:
     from . import c03
 
     ctx.run_imported("C03", {"R5"}, c03.check)
+    from .c22 import fresh_list_rule
+
+    fresh_list_rule(ctx, "R6")
     return __doc__ or ""
 
 
